@@ -31,7 +31,7 @@ class WorkerLibraryError(Exception):
 def worker(hashseed, harness_seed, n, with_neg):
     env = dict(os.environ, PYTHONHASHSEED=str(hashseed), D42_REPO=REPO, PYTHONDONTWRITEBYTECODE="1")
     p = subprocess.run([sys.executable, os.path.join(VERIF, "harness", "c17_worker.py"), VERIF, str(harness_seed), str(n),
-                        str(with_neg) if with_neg in (2, 3, 4) else ("1" if with_neg else "0")], env=env, stdout=subprocess.PIPE, stderr=subprocess.PIPE, timeout=600)
+                        str(with_neg) if with_neg in (2, 3, 4, 5, 6) else ("1" if with_neg else "0")], env=env, stdout=subprocess.PIPE, stderr=subprocess.PIPE, timeout=600)
     if p.returncode != 0:
         err = p.stderr.decode()[-3000:]
         if os.path.join(REPO, "d42") in err.split("Traceback")[-1].split("File ")[-1]:
@@ -90,6 +90,17 @@ def _run(ctx):
     compare(ctx, outs_neg, True)
     outs_nan = [(hs, worker(hs, hseed, 3, 2)) for hs in hashseeds[:3]]
     compare(ctx, outs_nan, False)
+    # the same schemas faked in an interpreter that first declared a zoo of bystander schemas, and in one that did not
+    withb, without = worker(hashseeds[0], hseed, 4, 5), worker(hashseeds[0], hseed, 4, 6)
+    for k, seqs in withb["runs"].items():
+        ctx.case(("bystanders", k), True)
+        other = without["runs"].get(k)
+        if other is None or seqs[0] != other[0]:
+            j = next((i for i in range(len(seqs[0])) if other is None or seqs[0][i] != other[0][i]), 0)
+            ctx.violation("the values after set_seed(k) depend on which other schemas the process DECLARED (never faked) before",
+                          seed=k, schema=withb["schemas"][j], with_bystanders=seqs[0][j], without=(other or [[None] * (j + 1)])[0][j],
+                          negated_class=False)
+            break
     # seeds equal under == (−3 / −3.0, 1 / True / 1.0, "1" / b"1" …) used in one order here and in the opposite order there
     fwd, rev = worker(hashseeds[0], hseed, 4, 3), worker(hashseeds[1], hseed, 4, 4)
     for k, seqs in fwd["runs"].items():
